@@ -75,7 +75,29 @@ def variants_table():
     return "\n".join(out)
 
 
-GEN = {"rules": rules_table, "findings": findings_table, "seeds": seeds_table,
+def twins_table():
+    out = ["| refactoring | what was refactored (behaviour preserved: same equiv.py output, 573 tests) | verdict of all 18 checks |", "|---|---|---|"]
+    n = {"silent": 0, "noisy": 0}
+    for d in sorted(glob.glob(f"{V}/twins/*")):
+        mp = os.path.join(d, "meta.json")
+        if not os.path.exists(mp):
+            continue
+        m = json.load(open(mp))
+        ca = m.get("checked_against", {})
+        noisy = ca.get("noisy_checks") or {}
+        if noisy:
+            n["noisy"] += 1
+            v = "**false alarm**: " + "; ".join(sorted(noisy))
+        else:
+            n["silent"] += 1
+            v = "silent"
+        out.append(f"| {os.path.basename(d)} | {m.get('summary', '')[:300]} | {v} |")
+    out.append("")
+    out.append(f"Totals: {n['silent']} silent, {n['noisy']} false alarms, of {sum(n.values())} confirmed refactorings (current checker).")
+    return "\n".join(out)
+
+
+GEN = {"twins": twins_table, "rules": rules_table, "findings": findings_table, "seeds": seeds_table,
        "variants": variants_table}
 
 
